@@ -157,12 +157,93 @@ class Ctx:
         self.atom_pos: dict[int, bool] = {}  # known positive?
         self.aux_sqrt: dict = {}
         self.gen_square: dict = {}  # generator -> real term (square)
+        self.gen_square_v: dict = {}  # generator -> V (square with radical components: nested radicals)
+        self.gen_by_key: dict = {}
         self.angle_t: dict[str, z3.ArithRef] = {}
         self.unit_atoms: dict[str, tuple] = {}
         self.ufs: dict[str, z3.FuncDeclRef] = {}
         self._fresh = itertools.count()
         self.var_meta: dict[str, dict] = {}
         self.known_pos: set[int] = set()
+
+    # ---- numeric fingerprints (used only to *propose* merging of equal radicals; every merge is
+    #      recorded as a lemma that the solver must prove)
+    def _point(self, k: int) -> list:
+        import random
+
+        pts = self.__dict__.setdefault("_points", {})
+        n = len(self.vars)
+        if k not in pts or pts[k][0] != n:
+            rng = random.Random(1000 + k)
+            pairs = []
+            for name, var in self.vars.items():
+                if self.var_meta.get(name, {}).get("aux"):
+                    val = z3.RealVal(1)
+                elif name.endswith(".E"):
+                    val = z3.Q(rng.randint(900, 1300), 100)
+                else:
+                    val = z3.Q(rng.randint(-99, 99), 100)
+                pairs.append((var, val))
+            pts[k] = (n, pairs)
+        return pts[k][1]
+
+    def eval_real(self, t, k: int):
+        import mpmath
+
+        if is_const(t):
+            return mpmath.mpf(t.numerator) / t.denominator
+        v = z3.simplify(z3.substitute(t, *self._point(k)))
+        if z3.is_rational_value(v):
+            return mpmath.mpf(v.numerator_as_long()) / v.denominator_as_long()
+        raise Unsupported("fingerprint: term did not evaluate to a number")
+
+    def eval_value(self, val: "V", k: int):
+        import mpmath
+
+        mpmath.mp.dps = 60
+        total = mpmath.mpc(0)
+        for b, (r, i) in val.c.items():
+            root = mpmath.mpf(1)
+            for g in b:
+                root = root * self.eval_generator(g, k)
+            total += mpmath.mpc(self.eval_real(r, k), self.eval_real(i, k)) * root
+        for a, e in val.den.items():
+            total = total / self.eval_real(self.atoms[a], k) ** e
+        return total
+
+    def eval_generator(self, g, k: int):
+        import mpmath
+
+        cache = self.__dict__.setdefault("_gen_vals", {})
+        if (g, k) not in cache:
+            if isinstance(g, int):
+                cache[g, k] = mpmath.sqrt(g)
+            elif g in self.gen_square_v:
+                cache[g, k] = mpmath.sqrt(self.eval_value(self.gen_square_v[g], k))
+            else:
+                cache[g, k] = mpmath.sqrt(self.eval_real(self.gen_square[g], k))
+        return cache[g, k]
+
+    def witness(self, constraints, ks=(0, 1, 2, 3)) -> int | None:
+        """A concrete rational point (one of the fingerprint points) at which all constraints hold and all
+        assumed radicands are positive: a satisfiability witness for the domain."""
+        import mpmath
+
+        for k in ks:
+            try:
+                pairs = self._point(k)
+                ok = all(z3.is_true(z3.simplify(z3.substitute(c, *pairs))) for c in constraints)
+                if ok:
+                    for g in list(self.gen_square) + list(self.gen_square_v):
+                        val = self.eval_generator(g, k) ** 2
+                        if not (mpmath.im(val) == 0 and mpmath.re(val) > 0):
+                            ok = False
+                            break
+                if ok:
+                    return k
+            except Exception:  # noqa: BLE001
+                continue
+        return None
 
     def mark_positive(self, term):
         self.known_pos.add(term.get_id())
@@ -419,15 +500,27 @@ class V:
         if self.is_zero() or other.is_zero():
             return V(self.ctx, {})
         out: dict = {}
+        slow = []
+        vsq_table = self.ctx.gen_square_v
         for b1, (r1, i1) in self.c.items():
             for b2, (r2, i2) in other.c.items():
                 common = b1 & b2
                 b = b1 ^ b2
                 re = rsub(rmul(r1, r2), rmul(i1, i2))
                 im = radd(rmul(r1, i2), rmul(i1, r2))
+                nested = []
                 for g in common:
+                    if g in vsq_table:
+                        nested.append(vsq_table[g])
+                        continue
                     sq = self.ctx.prime_square(g)
                     re, im = rmul(re, sq), rmul(im, sq)
+                if nested:
+                    t = V(self.ctx, {b: (re, im)})
+                    for sqv in nested:
+                        t = t * sqv
+                    slow.append(t)
+                    continue
                 if b in out:
                     r0, i0 = out[b]
                     out[b] = (radd(r0, re), radd(i0, im))
@@ -436,7 +529,13 @@ class V:
         den = dict(self.den)
         for a, e in other.den.items():
             den[a] = den.get(a, 0) + e
-        return V(self.ctx, out, den)
+        res = V(self.ctx, out, den)
+        for t in slow:
+            td = dict(t.den)
+            for a, e in den.items():
+                td[a] = td.get(a, 0) + e
+            res = res + V(self.ctx, t.c, td)
+        return res
 
     __rmul__ = __mul__
 
@@ -467,9 +566,15 @@ class V:
             a = V(ctx, {b: ri for b, ri in self.c.items() if g not in b}, dict(self.den))
             bg = V(ctx, {b: ri for b, ri in self.c.items() if g in b}, dict(self.den))
             conj = a - bg
-            norm = self * conj  # free of g
+            norm = a * a - bg * bg  # = self*conj; computed without the cancelling cross terms, hence free of g
             return conj * norm.inverse()
         ((b, (r, i)),) = self.c.items()
+        if any(g in ctx.gen_square_v for g in b):
+            # 1/(c sqrt(b)) = sqrt(b) / (c * b) with b's square a value containing further radicals
+            coeff = V(ctx, {B1: (r, i)}, dict(self.den))
+            for g in b:
+                coeff = coeff * (ctx.gen_square_v[g] if g in ctx.gen_square_v else V(ctx, {B1: (ctx.prime_square(g), ZERO)}))
+            return V(ctx, {b: (ONE, ZERO)}) * coeff.inverse()
         # self = (r + i I) sqrt(b) / den ;  1/self = den (r - i I) sqrt(b) / ((r^2+i^2) b^2)
         bsq = ONE
         for g in b:
@@ -477,7 +582,11 @@ class V:
         if is_zero(i):
             num = (ONE, ZERO)
             d = rmul(r, bsq)
-            positive = (not is_const(d)) and is_const(bsq) and bsq > 0 and ctx.is_known_positive(r)
+            positive = (not is_const(d)) and (
+                (is_const(bsq) and bsq > 0 and ctx.is_known_positive(r))
+                or (is_const(r) and r > 0 and ctx.is_known_positive(bsq))
+                or (ctx.is_known_positive(r) and ctx.is_known_positive(bsq))
+            )
         else:
             num = (r, rneg(i))
             d = rmul(radd(rmul(r, r), rmul(i, i)), bsq)
@@ -487,8 +596,20 @@ class V:
                 raise Unsupported("division by zero constant")
             out = V(ctx, {b: (rmul(num[0], 1 / d), rmul(num[1], 1 / d))})
         else:
-            aid = ctx.atom(d, positive)
-            out = V(ctx, {b: num}, {aid: 1})
+            # split monomial denominators into their factors (E*E -> atom E squared): smaller LCMs and
+            # the same normal form whichever way the product was built
+            const, factors = _split_product(d)
+            if const == 0:
+                raise Unsupported("division by zero constant")
+            den = {}
+            if len(factors) == 1 and const == 1:
+                den[ctx.atom(d, positive)] = 1
+            else:
+                for f_ in factors:
+                    aid = ctx.atom(f_, ctx.is_known_positive(f_))
+                    den[aid] = den.get(aid, 0) + 1
+            inv_c = 1 / const
+            out = V(ctx, {b: (rmul(num[0], inv_c), rmul(num[1], inv_c))}, den)
         if self.den:
             out = out * V(ctx, {B1: (self._den_term(self.den), ZERO)})
         return out
@@ -547,6 +668,84 @@ class V:
         if den:
             raise Unsupported("denominator in a position that needs a plain term")
         return to_z3(n)
+
+    def sqrt_gen(self) -> "V":
+        """Positive square root as a *generator* g with g*g -> radicand (exact radical arithmetic,
+        products of equal roots reduce, no solver variable).  The radicand is ASSUMED >= 0: a stated
+        narrowing of the domain to where NumPy's real sqrt is defined."""
+        ctx = self.ctx
+        q = self.as_fraction()
+        if q is not None:
+            return ctx.sqrt_rational(q)
+        if not self.is_real():
+            raise Unsupported("sqrt of a complex value")
+        even = {a: e // 2 + (e % 2) for a, e in self.den.items()}
+        odd = {a: 1 for a, e in self.den.items() if e % 2}
+        for a in odd:
+            if not ctx.atom_pos[a]:
+                if _dag_size(ctx.atoms[a], 200) < 200 and implied(ctx, ctx.atoms[a] > 0, 3000):
+                    ctx.atom_pos[a] = True
+                    continue
+                # sign not provable cheaply: narrow the domain explicitly to where this denominator is
+                # positive (it is positive at the witness points); recorded as an assumption
+                try:
+                    signs = [ctx.eval_real(ctx.atoms[a], k) > 0 for k in (0, 1)]
+                except Exception:  # noqa: BLE001
+                    signs = [False]
+                if all(signs):
+                    ctx.assume(ctx.atoms[a] > 0, "narrowed: a denominator under a square root is assumed positive")
+                    ctx.atom_pos[a] = True
+                else:
+                    raise Unsupported("sqrt over a denominator of unknown sign")
+        scale = self._den_term(odd) if odd else ONE
+        comps = {b: (rmul(r, scale), ZERO) for b, (r, i) in self.c.items()}
+
+        def canon(t):
+            # canonical key: z3's sum-of-monomials normal form (only for terms of moderate size), so that
+            # polynomially equal radicands built in a different order share one generator
+            t = to_z3(t)
+            keep = ctx.__dict__.setdefault("_keepalive", [])  # AST ids are only stable while the AST lives
+            if _dag_size(t, 400) < 400:
+                try:
+                    t = z3.simplify(t, som=True, sort_sums=True)
+                except z3.Z3Exception:
+                    pass
+            keep.append(t)
+            return t.get_id()
+
+        key = tuple(sorted((tuple(sorted(map(str, b))), canon(r)) for b, (r, _) in comps.items()))
+        name = ctx.gen_by_key.get(key)
+        radicand_v = V(ctx, comps)
+        if name is None:
+            # propose a merge with an existing generator through a numeric fingerprint (two points);
+            # the proposal is only used together with the lemma "the two radicands are equal"
+            try:
+                import mpmath
+
+                fp = tuple(mpmath.nstr(ctx.eval_value(radicand_v, k), 40) for k in (0, 1))
+            except Exception:  # noqa: BLE001
+                fp = None
+            if fp is not None:
+                table = ctx.__dict__.setdefault("gen_by_fp", {})
+                other = table.get(fp)
+                if other is not None:
+                    old_sq = ctx.gen_square_v.get(other) or V(ctx, {B1: (ctx.gen_square[other], ZERO)})
+                    ctx.__dict__.setdefault("merge_lemmas", []).append((other, old_sq, radicand_v))
+                    ctx.gen_by_key[key] = other
+                    name = other
+                else:
+                    table[fp] = f"g{len(set(ctx.gen_by_key.values()))}"
+        if name is None:
+            name = f"g{len(set(ctx.gen_by_key.values()))}"
+            ctx.gen_by_key[key] = name
+            if set(comps) == {B1}:
+                term = comps[B1][0]
+                ctx.gen_square[name] = term
+                if not is_const(term):
+                    ctx.known_pos.add(term.get_id())  # assumed: radicand > 0 wherever it is divided by
+            else:
+                ctx.gen_square_v[name] = V(ctx, comps)
+        return V(ctx, {frozenset([name]): (ONE, ZERO)}, {a: e for a, e in even.items() if e})
 
     def sqrt_unchecked(self) -> "V":
         """Real sqrt whose radicand >= 0 has already been proven by the caller (no side obligation)."""
@@ -684,6 +883,36 @@ def atoms_nonzero(ctx: Ctx, first_n: int | None = None) -> list:
             break
         out.append(t > 0 if ctx.atom_pos[i] else t != 0)
     return out
+
+
+def _split_product(t):
+    """z3 term -> (rational constant, list of non-constant factors)"""
+    const, factors, stack = Fraction(1), [], [t]
+    while stack:
+        u = stack.pop()
+        if z3.is_rational_value(u):
+            const *= Fraction(u.numerator_as_long(), u.denominator_as_long())
+        elif z3.is_mul(u):
+            stack.extend(u.children())
+        elif z3.is_app_of(u, z3.Z3_OP_UMINUS):
+            const = -const
+            stack.append(u.children()[0])
+        else:
+            factors.append(u)
+    factors.sort(key=lambda f_: f_.get_id())
+    return const, factors
+
+
+def _dag_size(t, limit: int) -> int:
+    seen, stack = set(), [t]
+    while stack and len(seen) < limit:
+        u = stack.pop()
+        i = u.get_id()
+        if i in seen:
+            continue
+        seen.add(i)
+        stack.extend(u.children())
+    return len(seen)
 
 
 def implied(ctx: Ctx, cond, timeout_ms: int = 10000) -> bool:
